@@ -449,3 +449,45 @@ def symbolic_numpy(extra=None):
     finally:
         for mod, k, v in saved:
             setattr(mod, k, v)
+
+
+# ------------------------------------------------------------------------------ piecewise polynomials
+class SymPPoly:
+    """Stand-in for scipy PPoly / Akima1DInterpolator objects: evaluates the *concrete* coefficient arrays
+    (c, x) scipy built (documented PPoly contract  p(t) = sum_m c[m,k] (t - x[k])^(K-m)  on [x[k], x[k+1]) )
+    with exact binary-rational coefficients; the interval is found by comparison forks (binary search).
+    Outside [x[0], x[-1]] Akima1DInterpolator returns NaN: that is a domain error here."""
+
+    def __init__(self, pp):
+        from fractions import Fraction
+
+        self.x = [Fraction(float(v)) for v in pp.x]
+        self.c = [[Fraction(float(v)) for v in row] for row in pp.c]
+        self.K = len(self.c) - 1
+        self.pp = pp
+
+    def piece(self, k, t):
+        acc = _s.ZERO
+        dt = S(t) - _s.const(self.x[k])
+        for m in range(self.K + 1):
+            acc = acc * dt + _s.const(self.c[m][k])
+        return acc
+
+    def __call__(self, t, *a, **k):
+        if not _has_sym(t):
+            return self.pp(t, *a, **k)
+        arr = _np.asarray(t, dtype=object)
+        out = _np.empty(arr.shape, dtype=object)
+        for idx in (_np.ndindex(*arr.shape) if arr.shape else [()]):
+            tv = S(arr[idx])
+            lo, hi = 0, len(self.x) - 1
+            if bool(tv < _s.const(self.x[0])) or bool(tv > _s.const(self.x[-1])):
+                raise _s.SymDomainError("piecewise polynomial evaluated outside its table")
+            while hi - lo > 1:
+                mid = (lo + hi) // 2
+                if bool(tv < _s.const(self.x[mid])):
+                    hi = mid
+                else:
+                    lo = mid
+            out[idx] = self.piece(lo, tv)
+        return out if arr.shape else out[()]
